@@ -54,8 +54,11 @@ FwdEv ==
 (* when the request does not ask, or the backend declines, it is an ordinary exchange.                                *)
 UpgEv ==
   /\ IsEvent("Upg")
-  /\ LET switch == Ev.asks /\ Ev.backend = "101" IN
-     bad' = ReportAll(bad, scn, l, <<
+  /\ LET switch == Ev.asks /\ Ev.backend = "101"
+         m == UpgradeOutcome(Ev.asks, Ev.backend = "101") IN
+     /\ drift' = IF m.status = Ev.status /\ (Ev.seen => m.upgradeSeen = Ev.sawUpgrade) /\ m.tunnel = (Ev.down /\ Ev.up)
+                   THEN drift ELSE Report(drift, scn, l, "forward.Director+ReverseProxy(upgrade)")
+     /\ bad' = ReportAll(bad, scn, l, <<
           <<Ev.seen, "C16.RequestReachesBackend">>,
           <<~Ev.hang, "C16.NeverHangs">>,
           <<Ev.seen => Ev.sawEnd, "C08.EndToEndHeadersPreserved">>,
@@ -66,7 +69,7 @@ UpgEv ==
           <<~switch => Ev.status = 200, "C16.StatusMapping">>,
           <<~switch => (Ev.backHdr /\ Ev.body = "plain"), "C16.ResponseBodyRelayed">>,
           <<Ev.events = <<"connected", "disconnected">>, "C16.ListenerEventsPaired">> >>)
-  /\ UNCHANGED <<scn, drift>> /\ nev' = nev + 1
+  /\ UNCHANGED scn /\ nev' = nev + 1
 
 End == /\ IsEvent("End")
        /\ JsonSerialize("result.json", [bad |-> bad, drift |-> drift, events |-> nev, lines |-> l])
